@@ -11,7 +11,8 @@ EXTENDS Integers, FiniteSets, Sequences, TLC
 CONSTANTS Clients,      \* goroutines using the pool
           Max,          \* maxCap
           MaxConns,     \* bound on connections ever created (state constraint)
-          Prune         \* TRUE: the idle pruner runs
+          Prune,        \* TRUE: the idle pruner runs
+          Dev           \* deviations kept as negative controls: subset of {"prunerStuck"}
 
 VARIABLES open,         \* pool not closed (c.conns # nil)
           idle,         \* sequence of idle connections (the `conns` channel)
@@ -108,11 +109,16 @@ PruneExpire == /\ ppc = "sort" /\ pheld # <<>>            \* the head of what wa
                /\ UNCHANGED <<open, idle, next, pc, held, sawOpen, unusable, ppc>>
 PruneKeep == /\ ppc = "sort" /\ ppc' = "reinsert"
              /\ UNCHANGED <<open, idle, tokens, live, next, pc, held, sawOpen, unusable, pheld>>
-\* re-insertion sends on c.conns under RLock: when the pool was closed meanwhile c.conns is nil and the
-\* send blocks forever (with the read lock held) -- the action is simply not enabled.
-PruneReinsert == /\ ppc = "reinsert" /\ (pheld = <<>> \/ open)
-                 /\ idle' = idle \o pheld /\ pheld' = <<>> /\ ppc' = "idle"
-                 /\ UNCHANGED <<open, tokens, live, next, pc, held, sawOpen, unusable>>
+\* re-insertion under RLock; when the pool was closed meanwhile (c.conns is nil) the connections that were taken
+\* out are closed instead.  "prunerStuck" in Dev is the behaviour found in the repository (kept as a negative
+\* control): the send on the nil channel blocked forever with the read lock held and the connections leaked.
+PruneReinsert == /\ ppc = "reinsert"
+                 /\ IF open \/ pheld = <<>>
+                    THEN /\ idle' = idle \o pheld /\ UNCHANGED live
+                    ELSE /\ "prunerStuck" \notin Dev
+                         /\ live' = live \ Range(pheld) /\ UNCHANGED idle
+                 /\ pheld' = <<>> /\ ppc' = "idle"
+                 /\ UNCHANGED <<open, tokens, next, pc, held, sawOpen, unusable>>
 
 Next == \/ \E c \in Clients : GetStart(c) \/ TryIdle(c) \/ TryClosed(c) \/ TryTake(c) \/ DialOk(c) \/ DialFail(c)
                               \/ WaitIdle(c) \/ WaitTimeout(c) \/ Mark(c) \/ Release(c)
@@ -138,6 +144,6 @@ C19_OnlyLiveHandedOut == InUse \subseteq live /\ Range(idle) \subseteq live
 \* after Close, once every user has given its connection back, no connection is left open
 Quiescent == ~open /\ \A c \in Clients : pc[c] = "idle"
 C19_NothingLeftAfterClose == Quiescent /\ ppc = "idle" => live = {}
-\* recorded deviation: a pruner that had taken connections out when Close ran never finishes
-C19_PrunerNeverStuck == ~(ppc = "reinsert" /\ pheld # <<>> /\ ~open)
+\* a pruner that had taken connections out when Close ran can always finish (negative control: Dev prunerStuck)
+C19_PrunerNeverStuck == ppc = "reinsert" => ENABLED PruneReinsert
 =============================================================================
